@@ -121,8 +121,14 @@ def t_restricted_keyword_key_newline(text, res):
 def t_comment_after_restricted_keyword(text, res):
     """return / break / continue / throw followed on the same line by a
     block comment (the printer re-emits comments with a line break after them)"""
+    # (the word as a property name - after '.', or as a key before ':' - is no keyword and starts no restricted
+    # production: not an instance)
+    after_dot = set()
+    if res is not None:
+        toks = res.tokens
+        after_dot = set(t.start for i, t in enumerate(toks) if i and toks[i - 1].value == '.' and toks[i - 1].kind == 'punct')
     for m in _words(text):
-        if m.group() in ('return', 'break', 'continue', 'throw'):
+        if m.group() in ('return', 'break', 'continue', 'throw') and m.start() not in after_dot:
             p = m.end()
             while p < len(text) and refjs.is_ws(text[p]):
                 p += 1
